@@ -44,6 +44,7 @@ type Cfg struct {
 	Probes         bool     `json:"probes"`            // include the messages that must be rejected
 	Depth          int      `json:"depth"`
 	MaxStates      int      `json:"max_states,omitempty"`
+	Budgeted       bool     `json:"time_budgeted,omitempty"` // gets an equal share of the remaining wall time
 }
 
 func (c Cfg) name() string {
@@ -859,14 +860,21 @@ func configs(quick bool) []Cfg {
 		}
 		return out
 	}
-	for _, nt := range [][2]int{{2, 1}, {2, 2}, {3, 1}, {3, 2}, {3, 3}} {
-		out = append(out, Cfg{N: nt[0], T: nt[1], MaxDev: 2, CreationPeriod: period, Kinds: []string{"x", "p", "k", "s"}, Probes: true, Depth: depth(nt[0])})
+	full := []string{"x", "p", "k", "s"}
+	// exhaustive part: <=2 deviators for n=2, <=1 deviator for n=3,4
+	for _, nt := range [][2]int{{2, 1}, {2, 2}} {
+		out = append(out, Cfg{N: nt[0], T: nt[1], MaxDev: 2, CreationPeriod: period, Kinds: full, Probes: true, Depth: depth(nt[0])})
+	}
+	for _, nt := range [][2]int{{3, 2}, {3, 1}, {3, 3}} {
+		out = append(out, Cfg{N: nt[0], T: nt[1], MaxDev: 1, CreationPeriod: period, Kinds: full, Probes: true, Depth: depth(nt[0])})
 	}
 	for _, nt := range [][2]int{{4, 2}, {4, 3}} {
 		out = append(out, Cfg{N: nt[0], T: nt[1], MaxDev: 1, CreationPeriod: period, Kinds: []string{"x", "s"}, Probes: true, Depth: depth(nt[0])})
 	}
-	for _, nt := range [][2]int{{4, 2}, {4, 3}} {
-		out = append(out, Cfg{N: nt[0], T: nt[1], MaxDev: 2, CreationPeriod: period, Kinds: []string{"x"}, Probes: false, Depth: depth(nt[0]), MaxStates: 400000})
+	// <=2 deviators for n=3,4: one corruption kind, no must-reject probes (covered above); each gets an
+	// equal share of the remaining time and ends with exhaustive:false when it is used up
+	for _, nt := range [][2]int{{3, 2}, {3, 1}, {3, 3}, {4, 2}, {4, 3}} {
+		out = append(out, Cfg{N: nt[0], T: nt[1], MaxDev: 2, CreationPeriod: period, Kinds: []string{"x"}, Probes: false, Depth: depth(nt[0]), Budgeted: true})
 	}
 	return out
 }
@@ -894,9 +902,16 @@ func init() {
 				r.Required = append(r.Required, "active:with-deviators", "r3:cfx:ok", "r2:k:ok")
 			}
 			deadline := r.Deadline(6*time.Minute, 40*time.Minute)
-			for _, c := range configs(r.Quick()) {
+			cfgs := configs(r.Quick())
+			for ci, c := range cfgs {
 				sp := &spec{cfg: c}
-				sr := engine.Search(sp, engine.SearchOpts{Depth: c.Depth, Deadline: deadline, MaxStates: c.MaxStates})
+				dl := deadline
+				if c.Budgeted {
+					if share := time.Now().Add(time.Until(deadline) / time.Duration(len(cfgs)-ci)); share.Before(dl) {
+						dl = share
+					}
+				}
+				sr := engine.Search(sp, engine.SearchOpts{Depth: c.Depth, Deadline: dl, MaxStates: c.MaxStates})
 				if sr.Exhaustive && sr.MaxDepth >= c.Depth {
 					// the depth bound, not the alphabet, ended the search
 					sr.Exhaustive = false
